@@ -210,6 +210,18 @@ def _has_boolean_default_true(M, t):
                                                   for c in M.comps(t))
 
 
+def _bits_partial_octet(t, v):
+    return t["k"] == "BITS" and v["n"] % 8 != 0
+
+
+def _setof_needs_sorting(t, v):
+    return t["k"] == "SETOF" and len(v) >= 2 and any(e != v[0] for e in v)
+
+
+def _set_has_default(M, t):
+    return t["k"] == "SET" and any(c["o"] == "D" for c in M.comps(t))
+
+
 def _set_default_explicit(t, v):
     """a SET value that stores a component equal to its DEFAULT explicitly"""
     if t["k"] != "SET":
@@ -247,6 +259,9 @@ PREDS = {
     "has_retagged_string": any_type(_has_retagged_string),
     "has_explicit_tag": any_type(_has_explicit_tag),
     "has_boolean_default_true": any_type(_has_boolean_default_true),
+    "bits_partial_octet": any_leaf(_bits_partial_octet),
+    "setof_needs_sorting": any_leaf(_setof_needs_sorting),
+    "set_default_explicit_any": any_type(_set_has_default),
     "choice_noninvolutive_order": any_type(_choice_noninvolutive_order),
     "set_default_explicit": any_leaf(_set_default_explicit),
 }
